@@ -1,6 +1,6 @@
 import AsynqModel.Lib.Batching
-import AsynqModel.Proofs.Batching7
 import AsynqModel.Proofs.Batching8
+import AsynqModel.Proofs.Batching9
 /-!
 # C11  Batch lifecycle: pending to flushed or cancelled, once; no item left pending
 
@@ -9,7 +9,16 @@ flush bodies; built-in DebugBatch), both settings of the debug option KEEP_DEPEN
 scripts and **every** history of operations - where every `add` may give the new item completion handlers
 (`spawn`: issue a new request; `link`: complete a pending sibling with a value or an error, which runs the
 sibling's handlers in turn).
-`Reach scripts k s` below is spelled `s = finalState scripts (init k keep) ops` for an arbitrary `ops`.
+
+The per-operation theorems are stated for every snapshot `s` that satisfies the decidable invariant `Good s`;
+`C11_no_item_left_pending` says that every reachable snapshot (`finalState scripts (init k keep) ops`, any `ops`)
+does, and `C11_invariant_needed` exhibits a snapshot outside the invariant where they fail.
+
+What the model cannot say (it has no such channel; see `harness/checks/c11.py` ASSUMPTIONS): hooks of the subclass
+other than `_flush` (`_cancel`, `_try_switch_active_batch`) that raise, and code that re-enters the batch it is called
+from.  "`flush()` / `cancel()` return normally" is therefore true of the model by construction; the content of these
+two clauses is the correspondence check (the harness records an exception of the real call as the operation's result
+and the observer's clauses `flush-total` / `cancel-total` reject it).
 -/
 namespace AsynqModel.Batching
 
@@ -27,15 +36,21 @@ theorem C11_no_item_left_pending (k : Kind) (keep : Bool) (scripts : List Script
     Good (finalState scripts (init k keep) ops) :=
   good_final scripts ops (init k keep) (good_init k keep)
 
-/-- **once**: from any reachable snapshot, any operation keeps the outcome of every finished batch (pending →
-    flushed | cancelled happens once) and the flush body of every batch has run at most once -/
-theorem C11_once (k : Kind) (keep : Bool) (scripts : List Script) (ops : List Op) (op : Op) (b : Nat) :
-    let s := finalState scripts (init k keep) ops
+theorem observe_snd (scripts : List Script) (s : St) (op : Op) :
+    (observe scripts s op).2 = ⟨op, (step scripts s op).2.1, (step scripts s op).2.2, (step scripts s op).1⟩ := rfl
+
+/-- **the inductive step, for every snapshot inside the invariant** (not only the reachable ones): whatever the
+    operation, the observer accepts the model's observation of it, and the invariant holds again afterwards -/
+theorem C11_step_accepted (scripts : List Script) (s : St) (hg : Good s) (op : Op) :
+    specStep false s (observe scripts s op).2 = none ∧ Good (step scripts s op).1 :=
+  ⟨step_ok scripts s hg op, good_of_specStep (step_ok (rx := false) scripts s hg op)⟩
+
+/-- **once**: any operation keeps the outcome of every finished batch (pending → flushed | cancelled happens once),
+    the flush body of every batch has run at most once, and never for a pending batch -/
+theorem C11_once (scripts : List Script) (s : St) (hg : Good s) (op : Op) (b : Nat) :
     s.runs b ≤ 1 ∧ (s.bout b = none → s.runs b = 0) ∧
       ∀ o, s.bout b = some o → (step scripts s op).1.bout b = some o := by
-  intro s
-  have hg : Good s := C11_no_item_left_pending k keep scripts ops
-  have ⟨_, _, _, hE, _⟩ := specStep_unpack (step_ok scripts s hg op)
+  have ⟨_, _, _, _, _, _, hE, _⟩ := specStep_unpack (step_ok (rx := false) scripts s hg op)
   by_cases hb : b < s.batches.length
   · have ⟨_, r1, r2⟩ := hg.2.2.2 b hb
     refine ⟨r1, r2, fun o ho => ?_⟩
@@ -45,43 +60,109 @@ theorem C11_once (k : Kind) (keep : Bool) (scripts : List Script) (ops : List Op
     refine ⟨by simp [St.runs, e], fun _ => by simp [St.runs, e], fun o ho => ?_⟩
     simp [St.bout, e] at ho
 
+/-- **an operation that has to flush a pending batch runs its body exactly once, and the body decides the outcome**
+    (`fate s op = .flushed b clear`: `flush()` of pending b; `item.value()` of a pending item of b; `b.value()`,
+    `b.error()` of pending b).  See `FlushedOk`: the batch is finished; user subclass - the body's start is the first
+    event, there is no other start, the run counter is 1, the body ended exactly once, raising `r` or returning
+    (`r = none`) with the batch still pending, and the batch's outcome is `bodyOutc r` (None, or the error the body
+    raised: **never an outcome nobody produced**); DebugBatch - outcome None or FutureIsAlreadyComputed;
+    the batch's item list is emptied iff the operation went through `flush()` and KEEP_DEPENDENCIES is off;
+    exactly one fresh batch appears iff b held the active slot -/
+theorem C11_flushed (scripts : List Script) (s : St) (hg : Good s) (op : Op) (b : Nat) (clear : Bool)
+    (hf : fate s op = .flushed b clear) :
+    FlushedOk s b clear (step scripts s op).1 (step scripts s op).2.2 := by
+  have ⟨_, h2, _⟩ := specStep_unpack (step_ok (rx := false) scripts s hg op)
+  exact flushedOk_of_fateClause h2 (by simpa [observe_snd] using hf)
+
+/-- **flush**: `flush()` of a pending batch returns normally (by construction of the model, see the header) and
+    flushes the batch in the sense of `C11_flushed`, with `clear = true` -/
+theorem C11_flush (scripts : List Script) (s : St) (hg : Good s) (b : Nat) (hb : b < s.batches.length)
+    (hp : s.bout b = none) :
+    (step scripts s (.flush b)).2.1 = .unit ∧
+    FlushedOk s b true (step scripts s (.flush b)).1 (step scripts s (.flush b)).2.2 := by
+  refine ⟨?_, C11_flushed scripts s hg _ b true (fate_flush hb hp)⟩
+  have e : s.batches[b]? = some s.batches[b] := List.getElem?_eq_getElem hb
+  simp only [St.bout, e, Option.bind_some] at hp
+  simp [step, e, hp]
+
 theorem isSome_of_ne_none {α} {o : Option α} (h : ¬ o = none) : o.isSome = true := by
   cases o <;> simp_all
 
-theorem observe_snd (scripts : List Script) (s : St) (op : Op) :
-    (observe scripts s op).2 = ⟨op, (step scripts s op).2.1, (step scripts s op).2.2, (step scripts s op).1⟩ := rfl
-
-/-- **flush is total**: `flush()` of a pending batch of a reachable snapshot returns normally whatever the flush
-    body does (sets all / some / no items, sets item errors, raises Exception or BaseException, issues
-    requests), leaves the batch finished, and (user subclass) has run the body exactly once -/
-theorem C11_flush_total (k : Kind) (keep : Bool) (scripts : List Script) (ops : List Op) (b : Nat) :
-    let s := finalState scripts (init k keep) ops
-    b < s.batches.length → s.bout b = none →
-      (step scripts s (.flush b)).2.1 = .unit ∧ ((step scripts s (.flush b)).1.bout b).isSome ∧
-      (s.kind = .user → (step scripts s (.flush b)).1.runs b = 1) := by
-  intro s hb hp
-  have hg : Good s := C11_no_item_left_pending k keep scripts ops
-  have ⟨h1, _⟩ := specStep_unpack (step_ok scripts s hg (.flush b))
+/-- **item.value() flushes**: asking an existing item for its value leaves the item complete and returns / raises
+    exactly its outcome; if the item was pending, its batch was pending too and the call flushed it like `flush()`
+    does (`C11_flushed`: body run once, outcome decided by the body - in particular the batch is NOT cancelled) -/
+theorem C11_item_value_flushes (scripts : List Script) (s : St) (hg : Good s) (i : Nat) (hi : i < s.items.length) :
+    let post := (step scripts s (.itemValue i)).1
+    (post.iout i).isSome ∧ (step scripts s (.itemValue i)).2.1 = readValue (post.iout i) ∧
+    (s.iout i = none →
+      s.bout (s.ibatch i) = none ∧ FlushedOk s (s.ibatch i) true post (step scripts s (.itemValue i)).2.2) := by
+  intro post
+  have ⟨h1, _⟩ := specStep_unpack (step_ok (rx := false) scripts s hg (.itemValue i))
   rw [observe_snd] at h1
-  have hnb : ¬ s.batches.length ≤ b := by omega
-  simp [opClause, hnb, hp] at h1
+  have hni : ¬ s.items.length ≤ i := by omega
+  simp only [opClause, hni, if_false] at h1
   split at h1
+  · cases h1
   · rename_i r1
     split at h1
     · cases h1
     · rename_i r2
-      split at h1
-      · cases h1
-      · rename_i r3
-        refine ⟨r1, ?_, fun hk => ?_⟩
-        · cases hx : (step scripts s (Op.flush b)).1.bout b with
-          | none => exact absurd hx r2
-          | some _ => rfl
-        · exact Classical.byContradiction fun hne => r3 ⟨hk, hne⟩
-  · cases h1
+      refine ⟨isSome_of_ne_none (by simpa using r1), by simpa using r2, fun hn => ?_⟩
+      have ⟨gb, _, gz⟩ := hg.2.2.1 i hi
+      have hbp : s.bout (s.ibatch i) = none := by
+        cases hx : s.bout (s.ibatch i) with
+        | none => rfl
+        | some y =>
+          have := gz (by rw [hx]; rfl)
+          rw [hn] at this; cases this
+      refine ⟨hbp, C11_flushed scripts s hg _ _ true ?_⟩
+      simp [fate, St.pendingBatch, hi, hn, gb, hbp]
 
-/-- **second flush**: `flush()` of a finished batch raises BatchingError, changes nothing and logs nothing
-    (in particular the flush body does not run again) - in any state -/
+/-- **batch.value() / batch.error() flush**: on a pending batch they run the flush body once (`C11_flushed`, the
+    item list is kept) and return / raise exactly the batch's outcome -/
+theorem C11_batch_value_flushes (scripts : List Script) (s : St) (hg : Good s) (b : Nat) (hb : b < s.batches.length)
+    (hp : s.bout b = none) :
+    FlushedOk s b false (step scripts s (.batchValue b)).1 (step scripts s (.batchValue b)).2.2 ∧
+    (step scripts s (.batchValue b)).2.1 = readValue ((step scripts s (.batchValue b)).1.bout b) ∧
+    FlushedOk s b false (step scripts s (.batchError b)).1 (step scripts s (.batchError b)).2.2 ∧
+    (step scripts s (.batchError b)).2.1 = readError ((step scripts s (.batchError b)).1.bout b) := by
+  have e : s.batches[b]? = some s.batches[b] := List.getElem?_eq_getElem hb
+  have hp' := hp
+  simp only [St.bout, e, Option.bind_some] at hp'
+  refine ⟨C11_flushed scripts s hg _ b false (by simp [fate, St.pendingBatch, hb, hp]), ?_,
+    C11_flushed scripts s hg _ b false (by simp [fate, St.pendingBatch, hb, hp]), ?_⟩
+  · simp [step, e, hp']
+  · simp [step, e, hp']
+
+/-- **cancel**: `cancel(error?)` of an existing batch returns normally (by construction of the model, see the
+    header); on a finished batch it changes nothing and logs nothing (any state); on a pending batch it finishes the
+    batch with the given error (or BatchCancelledError), the flush body does not run (run counter 0, no body event),
+    the item list is kept, and exactly one fresh batch appears iff the batch held the active slot -/
+theorem C11_cancel (scripts : List Script) (s : St) (hg : Good s) (b : Nat) (x : Option Nat)
+    (hb : b < s.batches.length) :
+    (step scripts s (.cancel b x)).2.1 = .unit ∧
+    ((s.bout b).isSome → step scripts s (.cancel b x) = (s, .unit, [])) ∧
+    (s.bout b = none →
+      CancelledOk s b (errOfCancel x) (step scripts s (.cancel b x)).1 (step scripts s (.cancel b x)).2.2) := by
+  have e : s.batches[b]? = some s.batches[b] := List.getElem?_eq_getElem hb
+  refine ⟨?_, ?_, ?_⟩
+  · simp only [step, e]; split <;> rfl
+  · intro h
+    simp only [St.bout, e, Option.bind_some] at h
+    simp [step, e, h]
+  · intro hp
+    have ⟨_, h2, _⟩ := specStep_unpack (step_ok (rx := false) scripts s hg (.cancel b x))
+    exact cancelledOk_of_fateClause h2 (by simp [observe_snd, fate, St.pendingBatch, hb, hp])
+
+/-- **an operation that has no pending batch to finish** (queries, reads of finished things, a second flush, a
+    cancel of a finished batch, add) logs nothing but item creations, creates no batch and leaves the slot alone -/
+theorem C11_quiet (scripts : List Script) (s : St) (hg : Good s) (op : Op) (hf : fate s op = .quiet) :
+    (step scripts s op).2.2.all Ev.isCreated = true ∧ slotOk s (step scripts s op).1 none = true := by
+  have ⟨_, h2, _⟩ := specStep_unpack (step_ok (rx := false) scripts s hg op)
+  exact quiet_of_fateClause h2 (by simpa [observe_snd] using hf)
+
+/-- **second flush** (holds in any state, by one unfolding of the model: the content is the correspondence):
+    `flush()` of a finished batch raises BatchingError, changes nothing and logs nothing -/
 theorem C11_second_flush_error (scripts : List Script) (s : St) (b : Nat) (h : (s.bout b).isSome) :
     step scripts s (.flush b) = (s, .raised .batching, []) := by
   simp only [step]
@@ -91,43 +172,14 @@ theorem C11_second_flush_error (scripts : List Script) (s : St) (b : Nat) (h : (
     simp only [St.bout, e, Option.bind_some] at h
     simp [h]
 
-/-- **cancel is total**: `cancel(error?)` of an existing batch never raises; on a finished batch it is a no-op
-    (any state); on a pending batch of a reachable snapshot it finishes the batch with the given error (or
-    BatchCancelledError) without running the flush body -/
-theorem C11_cancel_total (k : Kind) (keep : Bool) (scripts : List Script) (ops : List Op) (b : Nat) (x : Option Nat) :
-    let s := finalState scripts (init k keep) ops
-    b < s.batches.length →
-      (step scripts s (.cancel b x)).2.1 = .unit ∧
-      ((s.bout b).isSome → step scripts s (.cancel b x) = (s, .unit, [])) ∧
-      (s.bout b = none → (step scripts s (.cancel b x)).1.bout b = some (.err (errOfCancel x)) ∧
-                         (step scripts s (.cancel b x)).1.runs b = 0) := by
-  intro s hb
-  have hg : Good s := C11_no_item_left_pending k keep scripts ops
-  have ⟨h1, _⟩ := specStep_unpack (step_ok scripts s hg (.cancel b x))
-  rw [observe_snd] at h1
-  have hnb : ¬ s.batches.length ≤ b := by omega
-  have e : s.batches[b]? = some s.batches[b] := List.getElem?_eq_getElem hb
-  refine ⟨?_, ?_, ?_⟩
-  · simp only [step, e]; split <;> rfl
-  · intro h
-    simp only [St.bout, e, Option.bind_some] at h
-    simp [step, e, h]
-  · intro hp
-    simp [opClause, hnb, hp] at h1
-    repeat' split at h1
-    all_goals first | exact ⟨by assumption, by assumption⟩ | cases h1
-
 /-- **no add after finish**: constructing an item on a finished batch raises the constructor's AssertionError and
-    changes nothing (any state); a request through the service in a reachable snapshot always succeeds, because
-    the active batch is never a finished one -/
-theorem C11_no_add_after_finish (k : Kind) (keep : Bool) (scripts : List Script) (ops : List Op) (b p : Nat) (sp : Option Nat)
+    changes nothing (any state, by unfolding); a request through the service always succeeds and joins the active
+    batch, because the active batch is never a finished one (this half needs the invariant) -/
+theorem C11_no_add_after_finish (scripts : List Script) (s : St) (hg : Good s) (b p : Nat) (sp : Option Nat)
     (lk : Option Link) :
-    let s := finalState scripts (init k keep) ops
     ((s.bout b).isSome → step scripts s (.addTo b p) = (s, .raised .assertAdd, [])) ∧
     step scripts s (.add p sp lk) = (s.pushItem s.active p sp lk, .created s.items.length,
                                   [.created s.items.length s.active none]) := by
-  intro s
-  have hg : Good s := C11_no_item_left_pending k keep scripts ops
   refine ⟨fun h => ?_, ?_⟩
   · simp only [step]
     cases e : s.batches[b]? with
@@ -135,27 +187,64 @@ theorem C11_no_add_after_finish (k : Kind) (keep : Bool) (scripts : List Script)
     | some B => simp [newItemOn_finished h]
   · simp [step, newItemOn_pending hg.1 hg.2.1]
 
-/-- **items before announce**: whenever an operation on a reachable snapshot makes a batch announce its completion
-    (on_computed), that batch was pending before, is finished now, is not the active batch, and at the moment of
-    the announcement none of its items was pending; a leftover item (not set by a script statement) holds the
-    batch's error, else the "not set" AssertionError (user subclass) resp. its `_result` (DebugBatch); and at
-    most one batch is announced per operation -/
-theorem C11_items_before_announce (k : Kind) (keep : Bool) (scripts : List Script) (ops : List Op) (op : Op) :
-    let s := finalState scripts (init k keep) ops
+/-- **every change is logged exactly once** (`CountsOk`): whatever the operation, an item that went from pending to
+    complete has exactly one completion event (its on_computed fired once - never twice), every other item none;
+    every new item has exactly one creation event; a batch that went from pending to finished has been announced
+    exactly once, every other batch not at all (so at most one batch finishes per operation) -/
+theorem C11_every_change_logged_once (scripts : List Script) (s : St) (hg : Good s) (op : Op) :
+    CountsOk s (step scripts s op).1 (step scripts s op).2.2 := by
+  have ⟨_, _, _, _, _, hc, _⟩ := specStep_unpack (step_ok (rx := false) scripts s hg op)
+  exact hc
+
+theorem mem_of_announceCount {evs : List Ev} {b : Nat} (h : announceCount evs b = 1) :
+    ∃ pend act, Ev.announce b pend act ∈ evs := by
+  have hpos : 0 < announceCount evs b := by omega
+  obtain ⟨ev, hev, hp⟩ := List.countP_pos_iff.mp hpos
+  cases ev with
+  | announce c pend act =>
+    have : c = b := by simpa using hp
+    subst this
+    exact ⟨pend, act, hev⟩
+  | _ => simp at hp
+
+theorem mem_of_itemCount {evs : List Ev} {i : Nat} (h : itemCount evs i = 1) :
+    ∃ o bb, Ev.item i o bb ∈ evs := by
+  have hpos : 0 < itemCount evs i := by omega
+  obtain ⟨ev, hev, hp⟩ := List.countP_pos_iff.mp hpos
+  cases ev with
+  | item j o bb =>
+    have : j = i := by simpa using hp
+    subst this
+    exact ⟨o, bb, hev⟩
+  | _ => simp at hp
+
+/-- **items before announce**: a batch that an operation finishes IS announced (exactly one on_computed, see
+    `C11_every_change_logged_once`), and whenever a batch announces its completion it was pending before, is finished
+    now, is not the active batch, at the moment of the announcement none of its items was pending, no item of it is
+    completed after the announcement, and all its items are complete afterwards; an item completed by the library (not
+    by a script statement or a handler) holds the batch's error, else the "not set" AssertionError (user subclass,
+    batch flushed) resp. - only in an operation that runs the flush body - its `_result` (DebugBatch); every item that
+    the operation completes has a completion event carrying exactly its outcome -/
+theorem C11_items_before_announce (scripts : List Script) (s : St) (hg : Good s) (op : Op) :
     let post := (step scripts s op).1
     let evs := (step scripts s op).2.2
+    (∀ b, b < post.batches.length → s.bout b = none → (post.bout b).isSome → ∃ pend act, .announce b pend act ∈ evs) ∧
     (∀ b pend act, .announce b pend act ∈ evs →
         pend = [] ∧ act ≠ b ∧ s.bout b = none ∧ (post.bout b).isSome ∧
         ∀ i, i < post.items.length → post.ibatch i = b → (post.iout i).isSome) ∧
+    afterAnnounceOk post evs = true ∧
     (∀ i o, .item i o false ∈ evs →
         post.iout i = some o ∧ s.iout i = none ∧
-        itemRule post.kind o (post.bout (post.ibatch i)) (post.payload i) = true) ∧
+        itemRule post.kind (fate s op).bodyRuns o (post.bout (post.ibatch i)) (post.payload i) = true) ∧
+    (∀ i, i < post.items.length → s.iout i = none → (post.iout i).isSome → ∃ bb, .item i ((post.iout i).getD (.val 0)) bb ∈ evs) ∧
     (evs.filter Ev.isAnnounce).length ≤ 1 := by
-  intro s post evs
-  have hg : Good s := C11_no_item_left_pending k keep scripts ops
-  have ⟨_, h2, h3, _, h5⟩ := specStep_unpack (step_ok scripts s hg op)
-  rw [observe_snd] at h2 h3 h5
-  refine ⟨fun b pend act hmem => ?_, fun i o hmem => ?_, h3⟩
+  intro post evs
+  have ⟨_, _, h2, h3, ha, hc, _, h5⟩ := specStep_unpack (step_ok (rx := false) scripts s hg op)
+  rw [observe_snd] at h2 h3 ha hc h5
+  refine ⟨fun b hb hn hs => ?_, fun b pend act hmem => ?_, ha, fun i o hmem => ?_, fun i hi hn hs => ?_, h3⟩
+  · have := hc.2 b hb
+    rw [if_pos ⟨hn, hs⟩] at this
+    exact mem_of_announceCount this
   · have hc := h2 _ hmem
     simp only [evClause] at hc
     split at hc
@@ -187,51 +276,30 @@ theorem C11_items_before_announce (k : Kind) (keep : Bool) (scripts : List Scrip
         · cases hc
         · rename_i r3
           exact ⟨by simpa using r1, by simpa using r2, by simpa using r3⟩
-
-/-- **item.value() flushes**: asking an existing item of a reachable snapshot for its value leaves the item
-    complete, returns / raises exactly its outcome, and - if the item was pending - its batch is finished
-    afterwards (so the batch was flushed by the call) -/
-theorem C11_item_value_flushes (k : Kind) (keep : Bool) (scripts : List Script) (ops : List Op) (i : Nat) :
-    let s := finalState scripts (init k keep) ops
-    let post := (step scripts s (.itemValue i)).1
-    i < s.items.length →
-      (post.iout i).isSome ∧ (step scripts s (.itemValue i)).2.1 = readValue (post.iout i) ∧
-      (s.iout i = none → (post.bout (post.ibatch i)).isSome) := by
-  intro s post hi
-  have hg : Good s := C11_no_item_left_pending k keep scripts ops
-  have ⟨h1, _⟩ := specStep_unpack (step_ok scripts s hg (.itemValue i))
-  rw [observe_snd] at h1
-  have hni : ¬ s.items.length ≤ i := by omega
-  simp only [opClause, hni, if_false] at h1
-  split at h1
-  · cases h1
-  · rename_i r1
-    split at h1
-    · cases h1
-    · rename_i r2
-      split at h1
-      · cases h1
-      · rename_i r3
-        refine ⟨isSome_of_ne_none (by simpa using r1), by simpa using r2, fun hn => ?_⟩
-        cases hx : post.bout (post.ibatch i) with
-        | some _ => rfl
-        | none => exact absurd ⟨by simp [hn], by simp [post] at hx; simp [hx]⟩ r3
+  · have := (hc.1 i hi).1
+    rw [if_pos ⟨hn, hs⟩] at this
+    obtain ⟨o, bb, hmem⟩ := mem_of_itemCount this
+    have hcl := h2 _ hmem
+    simp only [evClause] at hcl
+    split at hcl
+    · cases hcl
+    · rename_i r1
+      have r1' : post.iout i = some o := by simpa using r1
+      exact ⟨bb, by rw [r1']; exact hmem⟩
 
 /-- **fresh batch during flush**: while the flush body of a batch runs the batch is not the active one (and that
     body had not run before and the batch was pending); every request issued during a flush or from an item's
     completion callback joins a pending batch different from the one being finished - the active one; such a
-    request never fails -/
-theorem C11_fresh_batch_during_flush (k : Kind) (keep : Bool) (scripts : List Script) (ops : List Op) (op : Op) :
-    let s := finalState scripts (init k keep) ops
+    request never fails.  (How many batches exist afterwards: `slot` in `FlushedOk` / `CancelledOk`, `C11_quiet`.) -/
+theorem C11_fresh_batch_during_flush (scripts : List Script) (s : St) (hg : Good s) (op : Op) :
     let post := (step scripts s op).1
     let evs := (step scripts s op).2.2
     (∀ b act, .body b act ∈ evs → act ≠ b ∧ act = post.active ∧ s.bout b = none ∧ s.runs b = 0) ∧
     (∀ i b src, .created i b (some src) ∈ evs →
         b ≠ src ∧ b = post.active ∧ post.bout b = none ∧ post.ibatch i = b ∧ s.items.length ≤ i) ∧
     (∀ src, .createFail src ∉ evs) := by
-  intro s post evs
-  have hg : Good s := C11_no_item_left_pending k keep scripts ops
-  have ⟨_, h2, _⟩ := specStep_unpack (step_ok scripts s hg op)
+  intro post evs
+  have ⟨_, _, h2, _⟩ := specStep_unpack (step_ok (rx := false) scripts s hg op)
   rw [observe_snd] at h2
   refine ⟨fun b act hmem => ?_, fun i b src hmem => ?_, fun src hmem => ?_⟩
   · have hc := h2 _ hmem
@@ -271,19 +339,17 @@ theorem C11_fresh_batch_during_flush (k : Kind) (keep : Bool) (scripts : List Sc
   · have hc := h2 _ hmem
     simp [evClause] at hc
 
-/-- **an outcome set by the flush body or by a sibling's completion handler is kept**: whenever, during an operation
-    on a reachable snapshot, an item is completed by harness code (a script statement, or the `link` handler of a
-    sibling that the library - or anybody - has just completed), the item was pending before the operation and holds
-    exactly that outcome after it: the library neither completes it a second time (which would raise out of
-    `cancel()` / abort `_computed` and leave the remaining items pending) nor replaces what was set -/
-theorem C11_set_outcome_kept (k : Kind) (keep : Bool) (scripts : List Script) (ops : List Op) (op : Op) :
-    let s := finalState scripts (init k keep) ops
+/-- **an outcome set by the flush body or by a sibling's completion handler is kept**: whenever, during an operation,
+    an item is completed by harness code (a script statement, or the `link` handler of a sibling that the library -
+    or anybody - has just completed), the item was pending before the operation and holds exactly that outcome after
+    it: the library neither completes it a second time (which would raise out of `cancel()` / abort `_computed` and
+    leave the remaining items pending) nor replaces what was set -/
+theorem C11_set_outcome_kept (scripts : List Script) (s : St) (hg : Good s) (op : Op) :
     let post := (step scripts s op).1
     let evs := (step scripts s op).2.2
     ∀ i o, .item i o true ∈ evs → post.iout i = some o ∧ s.iout i = none ∧ i < post.items.length := by
-  intro s post evs i o hmem
-  have hg : Good s := C11_no_item_left_pending k keep scripts ops
-  have ⟨_, h2, _, _, _⟩ := specStep_unpack (step_ok scripts s hg op)
+  intro post evs i o hmem
+  have ⟨_, _, h2, _⟩ := specStep_unpack (step_ok (rx := false) scripts s hg op)
   rw [observe_snd] at h2
   have hc := h2 _ hmem
   simp only [evClause] at hc
@@ -294,11 +360,7 @@ theorem C11_set_outcome_kept (k : Kind) (keep : Bool) (scripts : List Script) (o
     · cases hc
     · rename_i r2
       have r1' : post.iout i = some o := by simpa using r1
-      refine ⟨r1', by simpa using r2, ?_⟩
-      apply Classical.byContradiction
-      intro hlt
-      have : post.items[i]? = none := List.getElem?_eq_none_iff.mpr (Nat.le_of_not_lt hlt)
-      simp [St.iout, this] at r1'
+      exact ⟨r1', by simpa using r2, iout_isSome_lt (by rw [r1']; rfl)⟩
 
 /-- **the nesting bound of the model is never reached**: `completeItem` follows a chain of `link` handlers through
     structural recursion on a bound; the model passes the number of items.  For a pending item, every bound that is at
@@ -308,6 +370,21 @@ theorem completeItem_fuel_enough (f : Nat) (s : St) (i : Nat) (o : Outc) (bb : B
     (hf : s.items.length ≤ f) : completeItem f s i o bb = completeItem s.items.length s i o bb :=
   completeItem_fuel_irrelevant f s.items.length s i o bb hn
     (Nat.le_trans (linkedPending_le s) hf) (linkedPending_le s)
+
+/-! ## the invariant is needed
+
+A snapshot outside `Good` (an item pending although its batch is finished - what a `_computed` that forgets an item
+leaves behind): `item.value()` returns the internal marker instead of a value, the item stays pending, and the
+observer rejects the observation.  So the hypothesis `Good s` of the theorems above cannot be dropped, and the
+theorems say something about the reachable snapshots only because `C11_no_item_left_pending` holds. -/
+def strayState : St :=
+  { kind := .user, active := 1, batches := [⟨some (.val 0), [0], 1⟩, ⟨none, [], 0⟩], items := [⟨0, 1, none, none, none⟩] }
+
+theorem C11_invariant_needed :
+    ¬ Good strayState ∧ (step [] strayState (.itemValue 0)).2.1 = .marker ∧
+    (step [] strayState (.itemValue 0)).1.iout 0 = none ∧
+    specStep false strayState (observe [] strayState (.itemValue 0)).2 = some "item-value-completes" := by
+  decide
 
 /-! ## non-vacuity
 
@@ -322,38 +399,134 @@ example : spec .user (run demoScripts (init .user) demoOps) = true := by decide
 
 /-- the third operation (the flush) really produces the events the clauses talk about -/
 example : ((run demoScripts (init .user) demoOps)[2]?).map (·.evs) = some
-    [.body 0 1, .item 0 (.val 1) true, .created 2 1 (some 0), .item 1 (.err (.user 5)) false,
-     .created 3 1 (some 0), .announce 0 [] 1] := by decide
+    [.body 0 1, .item 0 (.val 1) true, .created 2 1 (some 0), .bodyEnd 0 (some (.user 5)) none,
+     .item 1 (.err (.user 5)) false, .created 3 1 (some 0), .announce 0 [] 1] := by decide
 
 example : ((run demoScripts (init .user) demoOps).map (·.res)) =
     [.created 0, .created 1, .unit, .raised (.user 5), .raised .batching, .unit, .raised .assertAdd,
      .errIs (some (.user 5))] := by decide
 
+/-- the hypotheses of `C11_flushed` are met by the flush above (`fate` says the batch has to be flushed) ... -/
+example : fate (finalState demoScripts (init .user) (demoOps.take 2)) (.flush 0) = .flushed 0 true := by decide
+/-- ... by `item.value()` of a pending item, `batch.value()` of a pending batch; `cancel` has to cancel -/
+example : fate (finalState demoScripts (init .user) (demoOps.take 2)) (.itemValue 1) = .flushed 0 true := by decide
+example : fate (finalState demoScripts (init .user) (demoOps.take 2)) (.batchValue 0) = .flushed 0 false := by decide
+example : fate (finalState demoScripts (init .user) (demoOps.take 2)) (.cancel 0 (some 3)) = .cancelled 0 (.user 3) := by
+  decide
+example : fate (finalState demoScripts (init .user) (demoOps.take 3)) (.flush 0) = .quiet := by decide
+
 /-- DebugBatch: flush sets every item to its result; a cancelled batch gives its items the cancellation error -/
 example : ((run [] (init .debug) [.add 3 (some 7) none, .flush 0, .add 4 none none, .cancel 1 none, .itemValue 2]).map (·.res)) =
     [.created 0, .unit, .created 2, .unit, .raised .cancelled] := by decide
 
-/-- the observer is not trivially true: it rejects a flush that announces the batch while item 0 is pending ... -/
-example : specClause .user
-    [⟨.add 1 none none, .created 0, [.created 0 0 none],
-      { kind := .user, active := 0, batches := [⟨none, [0], 0⟩], items := [⟨0, 1, none, none, none⟩] }⟩,
-     ⟨.flush 0, .unit, [.body 0 1, .announce 0 [0] 1],
+/-! ### the observer rejects the wrong observations (each is an observation of ONE operation after `add0`) -/
+
+def add0 (k : Kind) (keep : Bool := false) : Obs := ⟨.add 1 none none, .created 0, [.created 0 0 none],
+  { kind := k, keep := keep, active := 0, batches := [⟨none, [0], 0⟩], items := [⟨0, 1, none, none, none⟩] }⟩
+
+/-- what a correct flush with a body that sets nothing looks like: accepted -/
+example : specClause .user [add0 .user,
+    ⟨.flush 0, .unit, [.body 0 1, .bodyEnd 0 none none, .item 0 (.err .notSet) false, .announce 0 [] 1],
+     { kind := .user, active := 1, batches := [⟨some (.val 0), [], 1⟩, ⟨none, [], 0⟩],
+       items := [⟨0, 1, none, none, some (.err .notSet)⟩] }⟩] = "ok" := by decide
+
+/-- it rejects a flush that announces the batch while item 0 is pending ... -/
+example : specClause .user [add0 .user,
+    ⟨.flush 0, .unit, [.body 0 1, .bodyEnd 0 none none, .announce 0 [0] 1],
       { kind := .user, active := 1, batches := [⟨some (.val 0), [], 1⟩, ⟨none, [], 0⟩],
         items := [⟨0, 1, none, none, none⟩] }⟩] = "items-before-announce@flush" := by decide
 
 /-- ... a flush body that runs while its batch still holds the active slot ... -/
 example : specClause .user
-    [⟨.flush 0, .unit, [.body 0 0, .announce 0 [] 1],
+    [⟨.flush 0, .unit, [.body 0 0, .bodyEnd 0 none none, .announce 0 [] 1],
       { kind := .user, active := 1, batches := [⟨some (.val 0), [], 1⟩, ⟨none, [], 0⟩], items := [] }⟩]
     = "active-during-flush@flush" := by decide
 
-/-- ... and a second flush that does not raise -/
+/-- ... a second flush that does not raise ... -/
 example : specClause .user
     [⟨.cancel 0 none, .unit, [.announce 0 [] 1],
       { kind := .user, active := 1, batches := [⟨some (.err .cancelled), [], 0⟩, ⟨none, [], 0⟩], items := [] }⟩,
      ⟨.flush 0, .unit, [],
       { kind := .user, active := 1, batches := [⟨some (.err .cancelled), [], 0⟩, ⟨none, [], 0⟩], items := [] }⟩]
     = "second-flush-error@flush" := by decide
+
+/-- ... `item.value()` that CANCELS the pending batch instead of flushing it (body never runs) ... -/
+example : specClause .user [add0 .user,
+    ⟨.itemValue 0, .raised .cancelled, [.item 0 (.err .cancelled) false, .announce 0 [] 1],
+     { kind := .user, active := 1, batches := [⟨some (.err .cancelled), [], 0⟩, ⟨none, [], 0⟩],
+       items := [⟨0, 1, none, none, some (.err .cancelled)⟩] }⟩] = "flush-runs-body-once@itemValue" := by decide
+
+/-- ... `batch.value()` likewise ... -/
+example : specClause .user [add0 .user,
+    ⟨.batchValue 0, .raised .cancelled, [.item 0 (.err .cancelled) false, .announce 0 [] 1],
+     { kind := .user, active := 1, batches := [⟨some (.err .cancelled), [0], 0⟩, ⟨none, [], 0⟩],
+       items := [⟨0, 1, none, none, some (.err .cancelled)⟩] }⟩] = "flush-runs-body-once@batchValue" := by decide
+
+/-- ... a flush whose body returned, but the batch's own value is not None ... -/
+example : specClause .user [add0 .user,
+    ⟨.flush 0, .unit, [.body 0 1, .bodyEnd 0 none none, .item 0 (.err .notSet) false, .announce 0 [] 1],
+     { kind := .user, active := 1, batches := [⟨some (.val 7), [], 1⟩, ⟨none, [], 0⟩],
+       items := [⟨0, 1, none, none, some (.err .notSet)⟩] }⟩] = "flush-outcome@flush" := by decide
+
+/-- ... or the batch holds an error nobody raised ... -/
+example : specClause .user [add0 .user,
+    ⟨.flush 0, .unit, [.body 0 1, .bodyEnd 0 none none, .item 0 (.err (.user 3)) false, .announce 0 [] 1],
+     { kind := .user, active := 1, batches := [⟨some (.err (.user 3)), [], 1⟩, ⟨none, [], 0⟩],
+       items := [⟨0, 1, none, none, some (.err (.user 3))⟩] }⟩] = "flush-outcome@flush" := by decide
+
+/-- ... or an error different from the one the body raised ... -/
+example : specClause .user [add0 .user,
+    ⟨.flush 0, .unit, [.body 0 1, .bodyEnd 0 (some (.user 5)) none, .item 0 (.err (.user 3)) false, .announce 0 [] 1],
+     { kind := .user, active := 1, batches := [⟨some (.err (.user 3)), [], 1⟩, ⟨none, [], 0⟩],
+       items := [⟨0, 1, none, none, some (.err (.user 3))⟩] }⟩] = "flush-outcome@flush" := by decide
+
+/-- ... a flush without any completion / announcement event that leaves an item with a value out of nowhere ... -/
+example : specClause .user [add0 .user,
+    ⟨.flush 0, .unit, [.body 0 1, .bodyEnd 0 none none],
+     { kind := .user, active := 1, batches := [⟨some (.val 0), [], 1⟩, ⟨none, [], 0⟩],
+       items := [⟨0, 1, none, none, some (.val 42)⟩] }⟩] = "every-change-logged-once@flush" := by decide
+
+/-- ... a cancel without any event ... -/
+example : specClause .user [add0 .user,
+    ⟨.cancel 0 none, .unit, [],
+     { kind := .user, active := 1, batches := [⟨some (.err .cancelled), [0], 0⟩, ⟨none, [], 0⟩],
+       items := [⟨0, 1, none, none, some (.val 42)⟩] }⟩] = "every-change-logged-once@cancel" := by decide
+
+/-- ... a cancelled DebugBatch whose item gets its `_result` instead of the cancellation error ... -/
+example : specClause .debug [add0 .debug,
+    ⟨.cancel 0 none, .unit, [.item 0 (.val 1) false, .announce 0 [] 1],
+     { kind := .debug, active := 1, batches := [⟨some (.err .cancelled), [0], 0⟩, ⟨none, [], 0⟩],
+       items := [⟨0, 1, none, none, some (.val 1)⟩] }⟩] = "leftover-outcome@cancel" := by decide
+
+/-- ... the same item completed twice within one operation ... -/
+example : specClause .user [add0 .user,
+    ⟨.cancel 0 none, .unit, [.item 0 (.err .cancelled) false, .item 0 (.err .cancelled) false, .announce 0 [] 1],
+     { kind := .user, active := 1, batches := [⟨some (.err .cancelled), [0], 0⟩, ⟨none, [], 0⟩],
+       items := [⟨0, 1, none, none, some (.err .cancelled)⟩] }⟩] = "every-change-logged-once@cancel" := by decide
+
+/-- ... `flush()` that keeps the item list although KEEP_DEPENDENCIES is off ... -/
+example : specClause .user [add0 .user,
+    ⟨.flush 0, .unit, [.body 0 1, .bodyEnd 0 none none, .item 0 (.err .notSet) false, .announce 0 [] 1],
+     { kind := .user, active := 1, batches := [⟨some (.val 0), [0], 1⟩, ⟨none, [], 0⟩],
+       items := [⟨0, 1, none, none, some (.err .notSet)⟩] }⟩] = "keep-dependencies@flush" := by decide
+
+/-- ... or clears it although KEEP_DEPENDENCIES is on ... -/
+example : specClause .user [add0 .user true,
+    ⟨.flush 0, .unit, [.body 0 1, .bodyEnd 0 none none, .item 0 (.err .notSet) false, .announce 0 [] 1],
+     { kind := .user, keep := true, active := 1, batches := [⟨some (.val 0), [], 1⟩, ⟨none, [], 0⟩],
+       items := [⟨0, 1, none, none, some (.err .notSet)⟩] }⟩] true = "keep-dependencies@flush" := by decide
+
+/-- ... an item of the batch completed after the batch's announcement ... -/
+example : specClause .user [add0 .user,
+    ⟨.cancel 0 none, .unit, [.announce 0 [] 1, .item 0 (.err .cancelled) false],
+     { kind := .user, active := 1, batches := [⟨some (.err .cancelled), [0], 0⟩, ⟨none, [], 0⟩],
+       items := [⟨0, 1, none, none, some (.err .cancelled)⟩] }⟩] = "items-before-announce@cancel" := by decide
+
+/-- ... and a flush that creates two fresh batches -/
+example : specClause .user [add0 .user,
+    ⟨.flush 0, .unit, [.body 0 2, .bodyEnd 0 none none, .item 0 (.err .notSet) false, .announce 0 [] 2],
+     { kind := .user, active := 2, batches := [⟨some (.val 0), [], 1⟩, ⟨none, [], 0⟩, ⟨none, [], 0⟩],
+       items := [⟨0, 1, none, none, some (.err .notSet)⟩] }⟩] = "fresh-batch@flush" := by decide
 
 /-! ### completion handlers that complete a sibling (`link`)
 
@@ -371,13 +544,14 @@ example : spec .user (run [] (init .user) (linkOps ++ [.cancel 0 none, .itemValu
 
 /-- the same under `flush()` with a body that sets nothing, and under KEEP_DEPENDENCIES -/
 example : ((run [[]] (init .user true) (linkOps ++ [.flush 0]))[3]?).map (fun ob => (ob.evs, ob.post.bitems 0)) = some
-    ([.body 0 1, .item 0 (.err .notSet) false, .item 1 (.val 5) true, .item 2 (.err .notSet) false,
-      .announce 0 [] 1], [0, 1, 2]) := by decide
+    ([.body 0 1, .bodyEnd 0 none none, .item 0 (.err .notSet) false, .item 1 (.val 5) true,
+      .item 2 (.err .notSet) false, .announce 0 [] 1], [0, 1, 2]) := by decide
 
 /-- a chain of handlers: the flush body sets item 2, whose handler completes item 0, whose handler completes item 1 -/
 example : ((run [[.setValue 2 7]] (init .user)
       [.add 1 none (some ⟨1, false, 5⟩), .add 2 none none, .add 3 none (some ⟨0, true, 2⟩), .flush 0])[3]?).map (·.evs) =
-    some [.body 0 1, .item 2 (.val 7) true, .item 0 (.err (.user 2)) true, .item 1 (.val 5) true, .announce 0 [] 1] := by
+    some [.body 0 1, .item 2 (.val 7) true, .item 0 (.err (.user 2)) true, .item 1 (.val 5) true,
+          .bodyEnd 0 none none, .announce 0 [] 1] := by
   decide
 
 /-- DebugBatch: `_flush` sets item 0, the handler completes item 1, then `_flush` itself reaches item 1 and its
